@@ -389,17 +389,19 @@ func (c *Collection) WriteCas(key string, exp Exp, cas CAS, val any, opt sgbucke
 		if err != nil {
 			return nil, err
 		}
+		eventValue := raw
 		if (opt & sgbucket.Append) != 0 {
 			// the event carries the whole body, not just the appended bytes
-			if raw, _, _, err = c.getRaw(txn, key); err != nil {
+			// (in a variable of its own: this function runs again if the transaction is retried)
+			if eventValue, _, _, err = c.getRaw(txn, key); err != nil {
 				return nil, err
 			}
 		}
 		casOut = newCas
 		return &event{
 			key:        key,
-			value:      raw,
-			isDeletion: (raw == nil),
+			value:      eventValue,
+			isDeletion: (eventValue == nil),
 			cas:        newCas,
 			exp:        exp,
 			isJSON:     isJSON,
